@@ -3,6 +3,7 @@ import FGVerif.Proofs.C11Graph
 import FGVerif.Proofs.C11Unreach
 import FGVerif.Proofs.C11Rc
 import FGVerif.Proofs.C11Prune
+import FGVerif.Proofs.C11Clamp
 /-!
   C11 — reaction centre and radius pruning are exact.  Property theorems about `Model/C11.lean`.
 
@@ -22,7 +23,13 @@ import FGVerif.Proofs.C11Prune
   | `C11.prune_exact` (+ corollaries `prune_kept_iff`, `prune_bonds_unchanged`, `prune_new_nodes`, `prune_one_per_cut`, `prune_ids_fresh`) | the pruned graph is exactly the declarative description |
   | `C11.specUnreachable_sound`, `C11.specRc_sound`, `C11.specPrune_sound` | the driver's checkers imply the specifications |
 
-  Not modelled: numpy's int64 wrap-around (the model counts walks in unbounded `Nat`).
+  | `C11.getUnreachableClamped_eq`, `C11.pruneItsToRcClamped_eq` (C11Clamp) | the code's loop since 5e2d069 (every power clamped to 0/1) returns the same list / graph as the walk-counting loop, for every input |
+  | `C11.unreachable_exact_clamped`, `C11.prune_exact_clamped` | the two main theorems restated for the functions the driver evaluates |
+  | `Reach.cpowsum_le` | the numbers of the clamping loop are `≤ r + 1`: nothing can wrap |
+
+  Numbers: the theorems are about walk COUNTS in unbounded `Nat` (`getUnreachable`); the code clamps
+  every power to 0/1 (`getUnreachableClamped`, what the driver evaluates) — proved equal, so there is
+  no radius or graph size the theorems do not speak about.
 -/
 namespace C11
 open Graph Reach
@@ -41,6 +48,11 @@ theorem rc_exact (its : Graph) (hwf : wellFormed its = true) (hsim : simple its 
 theorem prune_exact (its : Graph) (hwf : wellFormed its = true) (hsim : simple its = true) (r : Nat)
     (insertH : Bool) : PruneSpec its r insertH (pruneItsToRc its r insertH) :=
   prune_exact_wf its (wf_of_wellFormed its hwf) (simple_of_simple its (wf_of_wellFormed its hwf) hsim) r insertH
+
+/-- **C11.prune_exact**, for the function the driver evaluates (pruning on top of the clamping loop) -/
+theorem prune_exact_clamped (its : Graph) (hwf : wellFormed its = true) (hsim : simple its = true) (r : Nat)
+    (insertH : Bool) : PruneSpec its r insertH (pruneItsToRcClamped its r insertH) := by
+  rw [pruneItsToRcClamped_eq]; exact prune_exact its hwf hsim r insertH
 
 /-! ### corollaries of `prune_exact` that do not mention the auxiliary list of kept atoms -/
 
